@@ -2093,3 +2093,22 @@ package mcp
 //@   ensures @the-post-is-bound-to-the-callers-context calls(mkReq) <= 1 && (calls(mkReq) == 1 ==> callArg(mkReq, 1, 0) == ctx && callArg(mkReq, 1, 1) == "POST")
 //@   ensures @the-request-sent-is-the-one-built calls(send) <= 1 && (calls(send) == 1 ==> calls(mkReq) == 1 && callArg(send, 1, 1) == callResult(mkReq, 1, 0))
 //@   ensures @an-answered-post-has-its-body-closed calls(send) == 1 && callResult(send, 1, 1) == nil ==> calls(closeBody) == 1
+
+// LoggingTransport (C04: an undeliverable cancellation notice disturbs no other request). The log mutex of a
+// loggingConn serialises log lines only: it is never held while the wrapped connection writes (or reads) - a write
+// that blocks on a peer that stopped draining must not stop the connection's single reader, which takes the same
+// mutex to log every message it returns.
+//@ monitor logmu lock loggingConn.mu as s [C04]
+//@   discipline-only
+//@ func (*loggingConn).Write [C04]
+//@   requires s != nil
+//@   modifies *
+//@   track s.delegate.Write as forward
+//@   assert at call s.delegate.Write: @the-log-lock-is-not-held-across-the-write !held(logmu)
+//@   ensures @forwarded-exactly-once-and-its-error-returned calls(forward) == 1 && result == callResult(forward, 1, 0)
+//@ func (*loggingConn).Read [C04]
+//@   requires s != nil
+//@   modifies *
+//@   track s.delegate.Read as forward
+//@   assert at call s.delegate.Read: @the-log-lock-is-not-held-across-the-read !held(logmu)
+//@   ensures @forwarded-exactly-once calls(forward) == 1
